@@ -138,3 +138,25 @@ def mc(name, timeout=600, coverage=False, **over):
     r["name"] = name
     r["constants"] = {k: (sorted(v) if isinstance(v, (set, frozenset)) else v) for k, v in c.items()}
     return r
+
+
+def c01_runs(tier, seed):
+    """Proxy-level part of C01: bodies delivered from the store are complete, unmixed and paired with their metadata."""
+    from concurrent.futures import ThreadPoolExecutor
+    fl = [policy_families()[0], policy_families()[1], flight_families()[2]]
+    n = 30 if tier == "quick" else 300
+    vlib.go_build("proxydrv")
+    with ThreadPoolExecutor(max_workers=3) as ex:
+        results = list(ex.map(lambda t: run_family(t[1], n, seed * 1000 + 900 + t[0]), enumerate(fl)))
+    out = {"violations": [], "notes": [], "coverage": {"proxy_level_families": []}, "traces": 0}
+    for f, r in zip(fl, results):
+        out["traces"] += r["behaviours"]
+        out["coverage"]["proxy_level_families"].append({k: r[k] for k in ("family", "behaviours", "lines", "consumed")})
+        for p in r["problems"]:
+            if "C01" in p["props"]:
+                out["violations"].append(vlib.save_replay("C01", "%s-%s-seed%d.json" % (f["name"], vlib.digest(p["replay_input"]), seed),
+                                                          {"kind": "proxydrv", "problem": {k: p[k] for k in ("props", "cats", "line", "event", "context", "kind")},
+                                                           "input": p["replay_input"]}))
+            else:
+                out["notes"].append("proxy family %s: first mismatch (line %d) concerns %s" % (f["name"], p["line"], ",".join(p["props"])))
+    return out
